@@ -257,6 +257,10 @@ func runC17(w *hx.Worker, j c17job, only string) {
 	} else {
 		texts = append(texts, "1e3", "Inf", "NaN", "0x1p-2")
 	}
+	if j.sh.name == "@Num" {
+		// every text over the characters numerals are made of, up to the tier's length bound
+		texts = append(texts, exhTexts...)
+	}
 	seconds := []string{""}
 	if j.sh.ntext == 2 {
 		seconds = []string{"0", "7", "x", "999999999999999999999", "_1", "e1"}
@@ -950,9 +954,34 @@ func chunks(ss []string, n int) [][]string {
 	return out
 }
 
+// exhTexts: all strings over the characters of Go numerals up to the tier's bound (set by plan/replay)
+var exhTexts []string
+
+func setExhTexts(quick bool) int {
+	n := 5
+	if quick {
+		n = 3
+	}
+	exhTexts = nil
+	seen := map[string]bool{}
+	for _, t := range intTexts() {
+		seen[t] = true
+	}
+	for _, t := range floatTexts() {
+		seen[t] = true
+	}
+	for _, t := range strs([]string{"0", "1", "9", "-", "+", "_", "x", "e", ".", "p"}, n) {
+		if !seen[t] {
+			exhTexts = append(exhTexts, t)
+		}
+	}
+	return n
+}
+
 func plan(c *hx.Ctx) *hx.Plan {
 	if c.Prop == "C17" {
 		js := c17jobs()
+		exhLen := setExhTexts(c.Quick())
 		return &hx.Plan{
 			N: len(js) + len(kinds),
 			Job: func(w *hx.Worker, i int) {
@@ -968,20 +997,19 @@ func plan(c *hx.Ctx) *hx.Plan {
 				}
 				return fmt.Sprintf("field=%s(%s) shape=%s", js[i].k.name, js[i].v.name, js[i].sh.name)
 			},
-			Rule:   "cross product: 12 numeric kinds x {plain, named, pointer, pointer-to-named, slice, slice of named} x capture shapes {@Num, @Num after elided space, @(\"-\" Num), @(Num Num), @Num* into slices} x numeric texts (boundary values min-1..max+1 of every width in decimal/hex/octal/legacy-octal/binary, signs, underscores, float boundaries of float32/float64, subnormals, Inf/NaN words, hex floats, junk). Oracle: strconv.ParseInt/ParseUint/ParseFloat with the field's bit size. evaluations = parses; distinct_nontrivial = distinct (kind, stored values) / error texts",
-			Bounds: map[string]any{"kinds": len(kinds), "variants": len(variants), "shapes": len(shapes), "int_texts": len(intTexts()), "float_texts": len(floatTexts())},
+			Rule:   "cross product: 12 numeric kinds x {plain, named, pointer, pointer-to-named, slice, slice of named} x capture shapes {@Num, @Num after elided space, @(\"-\" Num), @(Num Num), @Num* into slices} x numeric texts (boundary values min-1..max+1 of every width in decimal/hex/octal/legacy-octal/binary, signs, underscores, float boundaries of float32/float64, subnormals, Inf/NaN words, hex floats, junk; for the shape @Num additionally EVERY text over {0,1,9,-,+,_,x,e,.,p} up to max_exhaustive_text_len). Oracle: strconv.ParseInt/ParseUint/ParseFloat with the field's bit size. evaluations = parses; distinct_nontrivial = distinct (kind, stored values) / error texts",
+			Bounds: map[string]any{"kinds": len(kinds), "variants": len(variants), "shapes": len(shapes), "int_texts": len(intTexts()), "float_texts": len(floatTexts()), "max_exhaustive_text_len": exhLen, "exhaustive_texts": len(exhTexts)},
 			Assume: []string{"strconv is the oracle named by the property"},
 		}
 	}
 	// C18
-	ml := 4
-	soupLen := 4
+	ml, soupLen, abLen := 5, 5, 6
 	if c.Quick() {
-		ml = 3
+		ml, soupLen, abLen = 3, 4, 5
 	}
 	ss := strs(c18alpha, ml)
 	soups := strs([]string{`\`, "x", "u", "0", "7", "8", "q", `"`, "a", "'"}, soupLen)
-	abIns := strs([]string{"a", "b", " "}, 5)
+	abIns := strs([]string{"a", "b", " "}, abLen)
 	cs := chunks(ss, 500)
 	sc := chunks(soups, 1000)
 	n1, n2 := len(cs), len(cs)+len(sc)
@@ -1029,6 +1057,7 @@ func replay(c *hx.Ctx, key string) []hx.Violation {
 		return out
 	}
 	if c.Prop == "C17" {
+		setExhTexts(false)
 		for _, j := range c17jobs() {
 			if strings.HasPrefix(key, fmt.Sprintf("field=%s(%s) shape=%s ::", j.k.name, j.v.name, j.sh.name)) {
 				runC17(w, j, key)
@@ -1041,9 +1070,9 @@ func replay(c *hx.Ctx, key string) []hx.Violation {
 		return []hx.Violation{{Key: key, Class: "build-failed"}}
 	}
 	// re-run the whole (cheap) space and keep the matching key
-	runC18Strings(w, ctx, strs(c18alpha, 4))
-	runC18Soups(w, ctx, strs([]string{`\`, "x", "u", "0", "7", "8", "q", `"`, "a", "'"}, 4))
-	runC18Mappers(w, strs([]string{"a", "b", " "}, 5))
+	runC18Strings(w, ctx, strs(c18alpha, 5))
+	runC18Soups(w, ctx, strs([]string{`\`, "x", "u", "0", "7", "8", "q", `"`, "a", "'"}, 5))
+	runC18Mappers(w, strs([]string{"a", "b", " "}, 6))
 	runC18Combos(w, strs([]string{"a", "b", " "}, 4))
 	var out []hx.Violation
 	for _, v := range w.Violations() {
